@@ -47,16 +47,13 @@ def run(tier, replay):
         lib.tlc_must_pass(mc, f"{cfg}: shutdown protocol (L2) vs stop safety (L1)")
         states += mc["distinct"]; trans += mc["generated"]
         mcinfo[cfg] = {"states": mc["distinct"], "transitions": mc["generated"], "wall_s": round(mc["wall_s"], 1)}
-    # vacuity guard: stops with real work, exec termination with work, early finishers are reachable
-    if quick:
-        rc = lib.tlc("KActorsMC", cfg="KActorsMCreachq", pid=PID, workers=4, timeout=600)
-        want = {"ReachAll"}
-    else:
-        rc = lib.tlc("KActorsMC", cfg="KActorsMCreach", pid=PID, workers=8, timeout=1500, extra=["-continue"])
-        want = {"ReachStopWork", "ReachExecWork", "ReachEarly"}
-    if rc["error"] or not want <= set(rc["violated"]):
-        print("\n".join(rc["out"].splitlines()[-30:]))
-        lib.tool_error(f"vacuity guard: expected witnesses {sorted(want)} not all reachable in the model (log {rc['log']})")
+    # vacuity guard: each run is expected to stop at a witness state (stops with real work and exec termination with
+    # work all finished; an actor that finished early while its supervisor is still running)
+    for cfg, inv in (("KActorsMCreachq", "ReachAll"), ("KActorsMCreache", "ReachEarly")):
+        rc = lib.tlc("KActorsMC", cfg=cfg, pid=PID, workers=4, timeout=900)
+        if rc["error"] or inv not in rc["violated"]:
+            print("\n".join(rc["out"].splitlines()[-30:]))
+            lib.tool_error(f"vacuity guard: witness for {inv} not reachable in the model (log {rc['log']})")
     # model-only explorations (hypotheses / secondary), never alarms
     fr = lib.tlc("KActorsMC", cfg="KActorsMCfree", pid=PID, workers=4, timeout=900)
     if fr["error"]:
